@@ -254,6 +254,11 @@ class Input(ContextManager["Input"]):
                 if e is not None:
                     return e
             if current_bytes:  # incomplete keys shouldn't happen
+                # ...except when a read was cut off (at READ_SIZE bytes) in the
+                # middle of a keypress: get the rest before giving up
+                if self._nonblocking_read() > 0:
+                    self.unprocessed_bytes[:0] = current_bytes
+                    return find_key()
                 raise ValueError("Couldn't identify key sequence: %r" % current_bytes)
             return None
 
